@@ -79,8 +79,12 @@ func init() {
 			if tier == "thorough" {
 				sizes = []int{0, 1, 31, 32, 33, 64, 95, 96, 128, 160, 192}
 			}
-			for shape := 0; shape < 22; shape++ {
+			for shape := 0; shape < 24; shape++ {
 				for _, n := range sizes {
+					if shape == 21 && n > 128 {
+						// measured: 390 s at 160 bytes, 1100 s with a solver timeout at 192: not claimed
+						continue
+					}
 					rs = append(rs, HRun{Pkg: "./dig", Fn: "ZZ_C10_Scan", Params: []int{shape, n, 0}})
 					// measured: the extra-capacity variant takes 10 min at 128-192 bytes for
 				// the nested dynamic shapes and exceeds 25 min for shape 6; registered up to 96
@@ -92,12 +96,12 @@ func init() {
 			return rs
 		},
 		Assumptions: []string{
-			"type trees are the 22 catalogue entries of harness/dig/common.go, built by the real Event.ABIType (case-split, not solver-quantified)",
+			"type trees are the 24 catalogue entries of harness/dig/common.go, built by the real Event.ABIType (case-split, not solver-quantified)",
 			"data length and capacity are case-split; all content bytes (through the capacity) are solver-quantified, so every 32-byte word ranges over all 2^256 values including 2^63, 2^64-32, len, len-31",
 		},
 		Bounds: map[string]string{
 			"quick":    "data lengths {0,20,32,64,96} bytes, capacity = len or len+32; loop unwinding len/32+3 (exceeding it is reported, never ignored)",
-			"thorough": "data lengths {0,1,31,32,33,64,95,96,128,160,192} bytes with capacity = len; capacity = len+32 (bytes beyond the length must not influence the outcome) for lengths up to 96 (the larger ones ran past 25 minutes per instance for the nested dynamic shapes and are not claimed)",
+			"thorough": "data lengths {0,1,31,32,33,64,95,96,128,160,192} bytes with capacity = len (shape 21, a dynamic array of fixed arrays of a mixed tuple, up to 128: one query timed out at 192); capacity = len+32 (bytes beyond the length must not influence the outcome) for lengths up to 96 (the larger ones ran past 25 minutes per instance for the nested dynamic shapes and are not claimed)",
 		},
 		Outside: []string{"inputs longer than the bound", "type trees outside the catalogue", "the polynomial row growth of nested dynamic arrays whose offsets alias one tail (rows are bounded by (len/32+1)^2, asserted)"},
 	})
@@ -126,7 +130,7 @@ func init() {
 					}
 				}
 			}
-			for shape := 0; shape < 22; shape++ {
+			for shape := 0; shape < 24; shape++ {
 				for _, a := range alens {
 					for _, b := range blens {
 						rs = append(rs, HRun{Pkg: "./dig", Fn: "ZZ_C09_Decode", Params: []int{shape, a, b}, Unwind: 400})
@@ -137,7 +141,7 @@ func init() {
 		},
 		Assumptions: []string{
 			"array length digits are symbolic ASCII digits without a leading zero; the number of digits is case-split",
-			"type trees are the 22 catalogue entries (harness/dig/common.go) built by the real Event.ABIType; their values (every 32-byte word, every bytes/string content) are solver-quantified, array and byte-string lengths are case-split",
+			"type trees are the 24 catalogue entries (harness/dig/common.go) built by the real Event.ABIType; their values (every 32-byte word, every bytes/string content) are solver-quantified, array and byte-string lengths are case-split",
 			"the reference ABI encoder and the reference row rule live in the harness (harness/dig/c09.go) and are compiled natively for replay",
 			"each Result is used twice with different values and lengths (repeated use of one decoder instance)",
 		},
@@ -279,6 +283,19 @@ func init() {
 					}
 				}
 			}
+			// the fold of transaction-level and trace-level integrations (processTx)
+			for level := 0; level <= 1; level++ {
+				for op1 := 0; op1 < 4; op1++ {
+					for op2 := 0; op2 < 4; op2++ {
+						for agg := 0; agg < 4; agg++ {
+							if tier == "quick" && (op1 == 1 || op2 == 3 || agg == 3) {
+								continue
+							}
+							rs = append(rs, HRun{Pkg: "./dig", Fn: "ZZ_C12_TxFold", Params: []int{op1, op2, agg, level}})
+						}
+					}
+				}
+			}
 			// several rows from one log: verdicts are per row
 			for op1 := 0; op1 < 4; op1++ {
 				alens := []int{2}
@@ -318,6 +335,7 @@ func init() {
 		Assumptions: []string{
 			"per-filter semantics: field values and byte-string arguments are solver-quantified (hex argument text is built from symbolic bytes); decimal arguments of integer filters are 5 (uint64) / 4 (uint256) boundary constants, the field value is a free 64/256-bit value; string arguments come from a 4-word vocabulary, the field is a symbolic string",
 			"fold and pushdown: filter arguments are concrete constants, the log's topics and address are solver-quantified; eth_getLogs is assumed to return exactly the logs whose address is in the address list (if non-empty) and whose topic0 is in topics[0] (documented JSON-RPC semantics)",
+			"transaction-level and trace-level integrations (ZZ_C12_TxFold): two block fields (to / signer or trace to / from, symbolic 20 bytes) carry byte-string filters, every aggregation: the row is emitted iff the declared fold accepts (the third fold site, processTx)",
 			"rows of one log (ZZ_C12_Rows): a selected bytes32[] input with 2 (thorough 1..3) symbolic elements carrying a byte-string filter, optionally a second filter on log_addr, every aggregation; the row of element i is emitted iff the fold of element i's own verdicts accepts (identified by abi_idx), each element at most once",
 			"reference filters (filter_ref): the referenced table's content is a symbolic membership answer of the lookup (ZZ_C12_Ref); that the lookup runs on the inserting transaction is not checked here",
 		},
@@ -432,12 +450,17 @@ func init() {
 					for sm := 0; sm <= 1; sm++ {
 						rs = append(rs, HRun{Pkg: "./shovel", Fn: "ZZ_C06_Range", Params: []int{k, b, sm}})
 						rs = append(rs, HRun{Pkg: "./shovel", Fn: "ZZ_C06_RangeDep", Params: []int{k, b, sm}})
+						// a batch cut short by stop with more workers than blocks left
+						rs = append(rs, HRun{Pkg: "./shovel", Fn: "ZZ_C06_RangeConc", Params: []int{k, b, sm, 3}})
+						if tier == "thorough" && b > 1 {
+							rs = append(rs, HRun{Pkg: "./shovel", Fn: "ZZ_C06_RangeConc", Params: []int{k, b, sm, 2}})
+						}
 					}
 				}
 			}
 			return rs
 		},
-		Assumptions: append([]string{"start, stop, head and the prior position are free 64-bit values < 2^62 (start = 0 is the separate 'no start configured' mode); ZZ_C06_RangeDep repeats the step for an integration with one dependency whose recorded position is another free value (stop/start/resume bounds must hold for every dependency position); a block above the head has no hash (the node answers null, which is an error after fix c4a5d7e)"}, convAssume...),
+		Assumptions: append([]string{"start, stop, head and the prior position are free 64-bit values < 2^62 (start = 0 is the separate 'no start configured' mode); ZZ_C06_RangeConc repeats the step with a partitioned load (concurrency 3, thorough also 2); ZZ_C06_RangeDep repeats the step for an integration with one dependency whose recorded position is another free value (stop/start/resume bounds must hold for every dependency position); a block above the head has no hash (the node answers null, which is an error after fix c4a5d7e)"}, convAssume...),
 		Bounds:      map[string]string{"quick": "with/without prior position x batch in {1,3} x start configured or not", "thorough": "batch in {1,2,3,5,8}"},
 		Outside:     []string{"restarts are covered as 'resume from an arbitrary recorded position'"},
 	})
@@ -598,7 +621,7 @@ func init() {
 			if tier == "thorough" {
 				ns, mrs = []int{2, 3, 4, 5}, []int{0, 1, 2, 3}
 			}
-			for kind := 0; kind <= 4; kind++ {
+			for kind := 0; kind <= 5; kind++ {
 				for _, n := range ns {
 					for _, m := range mrs {
 						for fl := 0; fl <= 1; fl++ {
@@ -649,7 +672,7 @@ func init() {
 			"concurrent head (ZZ_C08_HeadConc): two Latest callers with symbolic floors and the poller (a second announcement or an error) run concurrently under the scheduler after one announcement; every received head must be one of the announced pairs or the node's own answer; threads switch only at blocking points in the quick tier (preemption budget 0), one preemption in the thorough tier",
 			"head cache: announcements (update), poller errors and Latest calls in every order of length n with symbolic numbers/hashes/floors; the poller goroutine itself is not scheduled (its calls are the announcements)",
 		},
-		Bounds:  map[string]string{"quick": "4 plans x n in {2,3} requests x maxreads in {0,1,2} x with/without node failures; prune with 7 ranges; head ops n+1 in {3,4}", "thorough": "n up to 5, maxreads up to 3; concurrent: 3 callers with 1 preemption, 2 callers with 2"},
+		Bounds:  map[string]string{"quick": "6 plans (incl. header-only vs full-block callers and a logs caller vs a receipts caller on the same cached headers) x n in {2,3} requests x maxreads in {0,1,2} x with/without node failures; prune with 7 ranges; head ops n+1 in {3,4}", "thorough": "n up to 5, maxreads up to 3; concurrent: 3 callers with 1 preemption, 2 callers with 2"},
 		Outside: []string{"concurrent mixes over different ranges or with more than 3 callers, more than 2 preemptions", "preemption inside a critical section at a point that is not a synchronisation operation (data races on such accesses are C18's subject)", "websocket/HTTP poller I/O"},
 	})
 }
@@ -749,7 +772,7 @@ func init() {
 			return rs
 		},
 		Assumptions: []string{
-			"integration shapes: transaction fields, log with an indexed selected input, log with a non-indexed selected array input, trace fields, log whose only selected value is a component of a tuple array (5 shapes, all ordered pairs, shared table or not); user-declared identity column (none / block field and column / table column only), column order, declaration order and how many columns of each table already exist in the database are case-split (enumerated, not solver-quantified)",
+			"integration shapes: transaction fields, log with an indexed selected input, log with a non-indexed selected array input, trace fields, log whose only selected value is a component of a tuple array (5 shapes, all ordered pairs, shared table or not); user-declared identity column (none / block field and column / table column only), column order, declaration order and how many columns of each table already exist in the database (none / half / all / exactly the first integration's own definition) are case-split (enumerated, not solver-quantified)",
 			"the database's answer to information_schema.columns is cut at pgx.CollectRows inside wpg.Diff; DDL/alter statements are read back from their text; 'create unique index if not exists u_<table>' semantics: the first statement executed for a table wins",
 			"key projection: the key must contain the identity columns that tell the integration's rows apart (ig_name, src_name, block_num, tx_idx + log_idx / abi_idx / trace_action_idx by shape) and only columns the integration writes (a NULL key column never collides); the node reports distinct (block, tx_idx, log_idx) per log",
 		},
